@@ -861,3 +861,63 @@ package gogu
 //@   property C12 C16
 //@   ensures result1 != nil ==> len(result0) == 0
 //@   ensures result1 == nil ==> fresh(result0)
+
+// ---------------------------------------------------------------- Range (C13)
+
+//@ ufun numStr(n int) string
+//@ ufun strNum(s string) int
+//@ axiom numStr_roundtrip: forall k int :: { numStr(k) } strNum(numStr(k)) == k
+
+//@ func gogu.NumToString
+//@   trusted fmt/reflect: the decimal rendering of an integer (float instantiations are outside every claim)
+//@   ensures result == numStr(n)
+
+//@ func gogu.N
+//@   trusted strconv/reflect: parsing the decimal rendering of an integer of type T gives that integer back
+//@   ensures result0 == strNum(s)
+
+//@ pred rangeAsc(r []T, start T, step T, end T) := (len(r) == 0 <==> !(start < end)) && (len(r) > 0 ==> r[0] == start && !(r[len(r)-1] + step < end)) && (forall k int :: 0 <= k && k < len(r) - 1 ==> r[k+1] == r[k] + step) && (forall k int :: 0 <= k && k < len(r) ==> r[k] < end)
+//@ pred rangeDesc(r []T, start T, d T, end T) := (len(r) == 0 <==> !(end < start)) && (len(r) > 0 ==> r[0] == start && !(end < r[len(r)-1] - d)) && (forall k int :: 0 <= k && k < len(r) - 1 ==> r[k+1] == r[k] - d) && (forall k int :: 0 <= k && k < len(r) ==> end < r[k])
+//@ pred rangeOK(r []T, start T, step T, end T) := (end > 0 ==> rangeAsc(r, start, step, end)) && (end <= 0 ==> rangeDesc(r, start, abs(step), end))
+
+//@ func gogu.Range
+//@   property C13 C16
+//@   finding KF-abs-min when len(args) == 3 && args[2] <= 0 && args[1] == Tmin_T && Tmin_T < 0
+//@   ensures len(args) > 3 ==> result1 != nil
+//@   ensures len(args) == 3 && (args[1] == 0 || (args[0] > args[2] && args[2] > 0) || (args[1] < 0 && args[2] > args[0])) ==> result1 != nil
+//@   ensures len(args) <= 2 || (len(args) == 3 && !(args[1] == 0 || (args[0] > args[2] && args[2] > 0) || (args[1] < 0 && args[2] > args[0]))) ==> result1 == nil
+//@   ensures result1 != nil ==> len(result0) == 0
+//@   ensures fresh(result0)
+//@   ensures len(args) == 0 ==> len(result0) == 0
+//@   ensures len(args) == 1 ==> rangeOK(result0, 0, 1, args[0])
+//@   ensures len(args) == 2 ==> rangeOK(result0, args[0], 1, args[1])
+//@   ensures len(args) == 3 && result1 == nil ==> rangeOK(result0, args[0], args[1], args[2])
+//@ loop 1
+//@   invariant fresh(result)
+//@   invariant len(result) == 0 ==> i == start
+//@   invariant len(result) > 0 ==> result[0] == start && i == result[len(result)-1] + step
+//@   invariant forall k int :: 0 <= k && k < len(result) - 1 ==> result[k+1] == result[k] + step
+//@   invariant forall k int :: 0 <= k && k < len(result) ==> result[k] < end
+//@ loop 2
+//@   invariant fresh(result)
+//@   invariant len(result) == 0 ==> i == start
+//@   invariant len(result) > 0 ==> result[0] == start && i == result[len(result)-1] - abs(step)
+//@   invariant forall k int :: 0 <= k && k < len(result) - 1 ==> result[k+1] == result[k] - abs(step)
+//@   invariant forall k int :: 0 <= k && k < len(result) ==> end < result[k]
+
+//@ pred rangeAscR(r []T, start T, step T, end T) := (len(r) == 0 <==> !(start < end)) && (len(r) > 0 ==> r[len(r)-1] == start && !(r[0] + step < end)) && (forall k int :: 0 <= k && k < len(r) - 1 ==> r[k] == r[k+1] + step) && (forall k int :: 0 <= k && k < len(r) ==> r[k] < end)
+//@ pred rangeDescR(r []T, start T, d T, end T) := (len(r) == 0 <==> !(end < start)) && (len(r) > 0 ==> r[len(r)-1] == start && !(end < r[0] - d)) && (forall k int :: 0 <= k && k < len(r) - 1 ==> r[k] == r[k+1] - d) && (forall k int :: 0 <= k && k < len(r) ==> end < r[k])
+//@ pred rangeOKR(r []T, start T, step T, end T) := (end > 0 ==> rangeAscR(r, start, step, end)) && (end <= 0 ==> rangeDescR(r, start, abs(step), end))
+
+//@ func gogu.RangeRight
+//@   property C13 C16
+//@   finding KF-abs-min when len(params) == 3 && params[2] <= 0 && params[1] == Tmin_T && Tmin_T < 0
+//@   ensures result1 != nil ==> len(result0) == 0
+//@   ensures len(params) > 3 ==> result1 != nil
+//@   ensures len(params) == 3 && (params[1] == 0 || (params[0] > params[2] && params[2] > 0) || (params[1] < 0 && params[2] > params[0])) ==> result1 != nil
+//@   ensures len(params) <= 2 || (len(params) == 3 && !(params[1] == 0 || (params[0] > params[2] && params[2] > 0) || (params[1] < 0 && params[2] > params[0]))) ==> result1 == nil
+//@   ensures fresh(result0)
+//@   ensures len(params) == 0 ==> len(result0) == 0
+//@   ensures len(params) == 1 ==> rangeOKR(result0, 0, 1, params[0])
+//@   ensures len(params) == 2 ==> rangeOKR(result0, params[0], 1, params[1])
+//@   ensures len(params) == 3 && result1 == nil ==> rangeOKR(result0, params[0], params[1], params[2])
